@@ -184,12 +184,6 @@ func ruleR12b(c *Check) {
 	}
 	c.Require(fullDeps, "R12b", "closure-over-all-dependencies/"+aname, "the closure ranges over GetDependencies(node): every dependency kind, aliases included", "the dependency closure ranges over a filtered view of the dependencies (e.g. targets only): a dependency reached through an alias is not selected and platform errors behind it are missed", c.P.InstrPos(recSite))
 	// each iteration: error return, or Select(elem) + recursion, or already selected
-	var bodyEntry *ssa.BasicBlock
-	for _, s := range lp.Header.Succs {
-		if lp.Body[s] {
-			bodyEntry = s
-		}
-	}
 	sels := selectCalls(anc)
 	isSel := func(in ssa.Instruction) bool {
 		for _, s := range sels {
@@ -204,8 +198,8 @@ func ruleR12b(c *Check) {
 		call, _ := engine.CallOf(a.V)
 		return a.Op == "true" && call != nil && call.Common().IsInvoke() && call.Common().Method.Name() == "GetIsSelected"
 	})
-	r1, _ := engine.PathExists(anc, firstInstrBefore(bodyEntry), toHeader, engine.PathQuery{CutInstr: isSel, CutEdge: seenCut})
-	r2, _ := engine.PathExists(anc, firstInstrBefore(bodyEntry), toHeader, engine.PathQuery{CutInstr: engine.IsInstr(recSite), CutEdge: seenCut})
+	r1 := lp.IterationCanSkip(isSel, seenCut)
+	r2 := lp.IterationCanSkip(engine.IsInstr(recSite), seenCut)
 	r3, _ := engine.PathExists(anc, recSite, toHeader, engine.PathQuery{CutEdge: engine.NilErrEdgesOf(recSite)})
 	c.Require(!r1 && !r2 && !r3, "R12b", "each-dependency-selected/"+aname, "every iteration selects the dependency and recurses (error propagated), unless it is already selected", fmt.Sprintf("an iteration over the dependencies can finish without selecting the dependency (%v), without recursing into it (%v) or ignoring the recursion's error (%v)", r1, r2, r3), c.P.InstrPos(recSite))
 	// platform mismatch returns before selecting
